@@ -297,6 +297,7 @@ const maxAppendEntries = 64
 
 // note: never access f.matchIndex in this method, because this is used by pipeline writer also
 func (r *replication) writeAppendEntriesReq(c *conn, req *appendReq, sendEntries bool) error {
+	verifPointRepl(r, "repl.beforeRead")
 	snapIndex, snapTerm := r.snaps.latest()
 
 	// fill req.prevLogXXX
